@@ -33,6 +33,50 @@ const (
 func flagTestEdges(fn *ssa.Function, flag int64, wantSet bool) ([]core.Edge, []ssa.CallInstruction) {
 	var edges []core.Edge
 	var tests []ssa.CallInstruction
+	// predicate helpers: a module function without flag parameters whose single return is a
+	// (possibly negated) test of the constant flag - `func (en *Engine) terminated() bool`
+	for _, c := range core.Calls(fn) {
+		g := core.StaticCallee(c)
+		if g == nil || g == fn || g.Pkg == nil || !strings.HasPrefix(g.Pkg.Pkg.Path(), core.ModPath) || len(g.Blocks) != 1 {
+			continue
+		}
+		if g.Signature.Results().Len() != 1 || g.Signature.Results().At(0).Type().String() != "bool" {
+			continue
+		}
+		ret, ok := g.Blocks[0].Instrs[len(g.Blocks[0].Instrs)-1].(*ssa.Return)
+		if !ok {
+			continue
+		}
+		rv, neg := ret.Results[0], false
+		for {
+			u, isU := rv.(*ssa.UnOp)
+			if !isU || u.Op != token.NOT {
+				break
+			}
+			rv, neg = u.X, !neg
+		}
+		inner, isCall := rv.(*ssa.Call)
+		if !isCall {
+			continue
+		}
+		// which polarity does the helper report? evaluate the inner test with the helper as context
+		innerSet, innerTests := flagTestEdgesOfValue(inner, flag)
+		if len(innerTests) == 0 {
+			continue
+		}
+		val := core.CallValue(c)
+		if val == nil {
+			continue
+		}
+		for _, ce := range core.BoolEdges(val) {
+			// helper true <=> (inner true) xor neg ; inner true <=> flagSet == innerSet
+			set := (ce.Val != neg) == innerSet
+			if set == wantSet {
+				edges = append(edges, ce.E)
+			}
+		}
+		tests = append(tests, c)
+	}
 	for _, c := range core.CallsTo(fn, stMatchFlag, stGetFlag) {
 		args := core.CallArgs(c)
 		if len(args) < 2 {
@@ -587,4 +631,30 @@ func isFreshEmptySlice(v ssa.Value) bool {
 		}
 	}
 	return false
+}
+
+// flagTestEdgesOfValue: for a call `MatchFlag(flag, mode)` / `GetFlag(flag)` on the constant flag,
+// reports whether "call result true" means the flag is set.
+func flagTestEdgesOfValue(c *ssa.Call, flag int64) (trueMeansSet bool, tests []ssa.CallInstruction) {
+	if !core.IsCallTo(c, stMatchFlag, stGetFlag) {
+		return false, nil
+	}
+	args := core.CallArgs(c)
+	if len(args) < 2 {
+		return false, nil
+	}
+	if v, ok := core.ConstInt(args[1]); !ok || v != flag {
+		return false, nil
+	}
+	if core.IsCallTo(c, stGetFlag) {
+		return true, []ssa.CallInstruction{c}
+	}
+	if len(args) < 3 {
+		return false, nil
+	}
+	mc, ok := args[2].(*ssa.Const)
+	if !ok || mc.Value == nil {
+		return false, nil
+	}
+	return mc.Value.String() == "true", []ssa.CallInstruction{c}
 }
